@@ -70,3 +70,65 @@ func vxH_C20_gauges() {
 	vxAssert("own-segments-counted", st.CurDirtySegments >= uint64(own))
 	vxAssert("nothing-dirty-means-zero-gauges", vxImplies(!anyData, zero))
 }
+
+func init() { vxRegister("vxH_C20_converse", vxH_C20_converse) }
+
+// vxH_C20_converse: a store-backed collection executes batches (parent
+// only / child only / both) and is then left alone - no explicit merger
+// notification. Once every background goroutine is idle the dirty gauges
+// must be back at zero and the store's own snapshot must hold every batch
+// (the gauges do not stay non-zero forever; zero means persisted).
+func vxH_C20_converse() {
+	fs := vxNewFS()
+	so := vxStoreOptions(fs)
+	so.CollectionOptions.CachePersisted = vxChoose(2) == 1
+	store, coll, err := OpenStoreCollection(fs.dir, so, StorePersistOptions{})
+	vxAssert("open-ok", err == nil)
+	ref := vxNewNode()
+	names := []string{"a"}
+	none := map[string]bool{}
+	nb := 1 + vxChoose(2)
+	for n := 0; n < nb; n++ {
+		b, berr := coll.NewBatch(4, 64)
+		vxAssert("newbatch-ok", berr == nil)
+		shape := vxChoose(3)
+		if shape != 1 {
+			ents := vxFixedSet()
+			vxFillBatch(b, ents)
+			ref.layers = append(ref.layers, ents)
+		}
+		if shape != 0 {
+			cb, cerr := b.NewChildCollectionBatch("a", BatchOptions{TotalOps: 2, TotalKeyValBytes: 16})
+			vxAssert("childbatch-ok", cerr == nil)
+			ents := vxFixedEnt()
+			vxFillBatch(cb, ents)
+			if ref.kids["a"] == nil {
+				ref.kids["a"] = vxNewNode()
+			}
+			ref.kids["a"].layers = append(ref.kids["a"].layers, ents)
+		}
+		vxAssert("executebatch-ok", coll.ExecuteBatch(b, WriteOptions{}) == nil)
+		b.Close()
+		if vxChoose(2) == 1 {
+			vxQuiesce()
+		}
+	}
+	vxQuiesce()
+	st, serr := coll.Stats()
+	vxAssert("stats-ok", serr == nil)
+	vxObserveU64("dirty-ops", st.CurDirtyOps)
+	vxObserveU64("dirty-segments", st.CurDirtySegments)
+	vxAssertK("idle-collection-drains-by-itself", st.CurDirtyOps == 0 && st.CurDirtyBytes == 0 && st.CurDirtySegments == 0,
+		"C20-child-only-batch-does-not-wake-merger", len(ref.kids) > 0)
+	if st.CurDirtyOps == 0 && st.CurDirtyBytes == 0 && st.CurDirtySegments == 0 {
+		var K, J vxKey
+		K.n, J.n = 1, 1
+		K.b[0], J.b[0] = 'k', 'j'
+		ss, _ := store.Snapshot()
+		vxCheckTree("store", ss, ref, K, vxKeyBytes(K), names, none)
+		vxCheckTree("store2", ss, ref, J, vxKeyBytes(J), names, none)
+		ss.Close()
+	}
+	coll.Close()
+	store.Close()
+}
